@@ -24,8 +24,10 @@ META = {
                   'sets from the full space (targets x permission sets x groups x roles x labels x entity/attribute '
                   'exclusions); for each, ALL users (8 group subsets x 4 role profiles + anonymous) x all entities, '
                   'attributes and objects x the mentioned permissions are asked of the real has_perm in every '
-                  'iteration order of the rule containers. Exhaustive inside the small model, sampled over rule sets: '
-                  'exploration.',
+                  'iteration order of the rule containers. For every rule set one mutable user object and one plain string user '
+                  'change groups / role profile / extra getters inside a session (either answer admissible), between '
+                  'sessions and while no session is open (exact), including get_user_groups and to_json. Exhaustive '
+                  'inside the small model, sampled over rule sets: exploration.',
     'level_note': 'Trusted: the reference reading of the statement (entity/attribute questions have no object, so '
                   'only groups and exclusions apply there; roles and labels apply to object questions; an object of an '
                   'excluded entity is excluded; can_view = view or edit as pony defines it); the harness clears '
@@ -36,6 +38,7 @@ META = {
     'assumptions': [
         'groups, roles and labels are pure functions of (user), (user, object) and (object) during a session',
         'rules are declared before the first question of a session (perm caches are per session)',
+        'a membership change made while a session is open may or may not be seen by that session; every later session must see it',
     ],
     'shims': [],
     'exhaustive_tiers': [],
@@ -544,8 +547,9 @@ def membership_phase(ctx, m, specs, ref, perms, rng):
             if out is not None:
                 for cls, d in out['objects'].items():
                     for pk in d:
-                        if not (rB[('O', 'view', (cls, int(pk)))] if 'view' in perms else True) and \
-                           not (rB[('O', 'edit', (cls, int(pk)))] if 'edit' in perms else False) and 'view' in perms and 'edit' in perms:
+                        ctx.count('membership.to_json_objects')
+                        # a permission outside `perms` is mentioned by no rule of this rule set, so it is not granted
+                        if not (rB.get(('O', 'view', (cls, int(pk))), False) or rB.get(('O', 'edit', (cls, int(pk))), False)):
                             ctx.violation({'rules': specs, 'stage': 'next-session', 'user': repr(user), 'states': [A, B],
                                            'to_json_object': [cls, int(pk)]}, mechanism='membership-change-to_json')
         apply_state(user, C)                                      # changed while no session is open
